@@ -211,6 +211,9 @@ def run_unit(unit):
                 import copy as _copy
                 sp_h = _copy.deepcopy(sp)
                 sp_h['surfs'][gi]['mat'] = ['ideal', 1.66, 0.0]
+                # the last analysis before the edit and the first one after it use the same wavelength
+                Wavefront(o, fields=[(0.0, 1.0)], wavelengths=[0.5876], num_rays=3, distribution='hexapolar')
+                part.transitions += 1
                 o.set_index(1.66, gi + 1)
                 part.transitions += 1
                 rows_h = prescription.rows(sp_h, lambda m, prev: LZ.ref_index(m, 0.5876, prev))
